@@ -109,6 +109,65 @@ fn run<G: Group>(sc: &Scenario, st: &mut RunStats) -> Vec<Violation> {
                 }
             }
         }
+        // every way of reaching a position through the public accessors reports the same generator: jumps
+        // (nth, skip, step_by, last) that land on, just before and just after party boundaries, from
+        // fresh and from partly consumed iterators
+        {
+            let total = bits * cap;
+            let mut positions: Vec<usize> = vec![0, total - 1];
+            for party in 0..=cap.min(4) {
+                for d in [-1i64, 0, 1] {
+                    let p = (party * bits) as i64 + d;
+                    if p >= 0 && (p as usize) < total {
+                        positions.push(p as usize);
+                    }
+                }
+            }
+            for _ in 0..4 {
+                positions.push(srng.usize_below(total));
+            }
+            for (name, vecs) in [("G vector", &gi), ("H vector", &hi)] {
+                let fresh = || -> Box<dyn Iterator<Item = &G> + '_> {
+                    if name == "G vector" {
+                        Box::new(params.gi_base_iter())
+                    } else {
+                        Box::new(params.hi_base_iter())
+                    }
+                };
+                for p in positions.iter().copied() {
+                    let consumed = if p > 0 { srng.usize_below(p + 1) } else { 0 };
+                    let mut it = fresh();
+                    for _ in 0..consumed {
+                        it.next();
+                    }
+                    let a = fresh().nth(p).cloned();
+                    let b = fresh().skip(p).next().cloned();
+                    let c = it.nth(p - consumed).cloned();
+                    st.evals += 1;
+                    let want = Some(vecs[p].clone());
+                    if a != want || b != want || c != want {
+                        out.push(Violation::new(
+                            "accessor_reports_other_generator_for_position",
+                            name,
+                            format!("{} ({}): position {} reached by a jump (nth / skip / nth after {} steps) is not the generator reached by stepping", key, G::NAME, p, consumed),
+                        ));
+                        return out;
+                    }
+                }
+                st.probe("positions_reached_by_jumps");
+                // (every chain is bounded: a broken accessor must not be able to run away)
+                let stepped: Vec<G> = fresh().step_by(bits).take(cap + 1).cloned().collect();
+                let want: Vec<G> = (0..cap).map(|party| vecs[party * bits].clone()).collect();
+                if stepped != want || fresh().take(total + 1).last() != vecs.last() || fresh().take(total + 1).count() != total || fresh().nth(total).is_some() {
+                    out.push(Violation::new(
+                        "accessor_reports_other_generator_for_position",
+                        name,
+                        format!("{} ({}): step_by(bits) / last / count / nth(len) disagree with stepping through the accessor", key, G::NAME),
+                    ));
+                    return out;
+                }
+            }
+        }
         // Pedersen generators
         let g = params.g_bases();
         if g.len() != ext || params.g_bases_compressed().len() != ext {
@@ -331,6 +390,6 @@ impl Check for C11 {
     }
 
     fn required_probes(&self, _tier: Tier) -> Vec<&'static str> {
-        vec!["full_lattice_point_64_32", "construction_after_other_constructions", "same_table_size_different_shape_alive"]
+        vec!["full_lattice_point_64_32", "construction_after_other_constructions", "same_table_size_different_shape_alive", "positions_reached_by_jumps"]
     }
 }
